@@ -1188,7 +1188,44 @@ theorem isReady_plan_eq (cfg : Cfg) (hfx : cfg.fixed = C08.aheadFixed) (s : St) 
   rw [handshake_plan_eq cfg hfx]
   simp [isReady, hn, hl]
 
+/-- **Whole-function tie of `remoteReplicator.Replica` (round 12).** `C08.replicaPlan idx` is the decision tree
+re-read from the source of `Replica(idx, msg)` on every run (Send with its error branch, Recv with its error
+branch, the test on the answer incl. `resp.Err`, `SetAckIndex` with its argument, the state stored on each
+path). For EVERY state, index, message and fault the model's `replicaSend` — run with the regenerated shape of
+the else-branch — leaves the state the interpretation of that tree leaves. -/
+theorem replica_plan_eq (cfg : Cfg) (hm : cfg.mfail = C08.mismatchSetsFailure) (s : St) (idx : Int) (m : Msg) (f : Fault) :
+    runSend m (C08.replicaPlan idx) s none f = some (replicaSend cfg s idx m f).1 :=
+  replicaSend_eq_plan cfg (by rw [hm]; rfl) s idx m f
+
 end Tie
+
+/-- **The regenerated `Replica` acknowledges only what the follower appended** (every state, index, message,
+fault — no reachability needed): interpreting the tree read from `Replica`'s source, the group's ack moves only
+to the sent index, and only when the follower appended exactly this message at exactly that position. -/
+theorem plan_replica_ack_sound (s s' : St) (idx : Int) (m : Msg) (f : Fault)
+    (h : runSend m (LinVerif.Generated.C08.replicaPlan idx) s none f = some s') (hg : s'.gack ≠ s.gack) :
+    s'.gack = idx ∧ idx = s.F.app + 1 ∧ s'.F = s.F.put m := by
+  rw [Tie.replica_plan_eq { fixed := true, mfail := true, wake := true } rfl] at h
+  have h' := Option.some.inj h
+  subst h'
+  revert hg
+  unfold replicaSend replicaLog ackGroup
+  by_cases h1 : s.stream ≠ .up ∨ f = .send
+  · simp [h1]
+  have hs : s.stream = .up := Classical.byContradiction fun h => h1 (Or.inl h)
+  have hf : f ≠ .send := fun h => h1 (Or.inr h)
+  by_cases h2 : f = .recv
+  · subst h2; simp [hs]
+  by_cases hc : s.closed = true
+  · simp [hs, hf, h2, hc]
+  by_cases hi : idx = s.F.app + 1
+  · by_cases hp : f = .put
+    · subst hp; simp [hs, hc, hi]
+    · simp [hs, hf, h2, hc, hi, hp]
+      split <;> simp
+  · simp [hs, hf, h2, hc, hi]
+    have : ¬ (s.F.app + 1 = idx) := fun h => hi h.symm
+    simp [this]
 
 /-- **The regenerated handshake meets the handshake's post-condition** (every event sequence, every fault):
 whenever the decision tree read from IsReady's source, interpreted on a reachable state with a live follower
@@ -1229,6 +1266,15 @@ theorem plan_handshake_sound (cfg : Cfg) (hfx : cfg.fixed = LinVerif.Generated.C
   exact ⟨hs.gmono, hs.ackok, hs.fkeep, hs.lkeep, hs.fail⟩
 
 /-! ## 6. non-vacuity -/
+
+/-- `plan_replica_ack_sound`'s hypotheses are satisfiable: a synced channel with one message pending, consumed
+and offered at index 1 — the regenerated tree of `Replica` moves the ack 0 -> 1 -/
+example :
+    ∃ s', runSend [2] (LinVerif.Generated.C08.replicaPlan 1)
+        (consume (run { fixed := true, mfail := true, wake := true } [.append [1], .step .a .none, .append [2]])).1 none .none = some s' ∧
+      s'.gack = 1 ∧
+      (consume (run { fixed := true, mfail := true, wake := true } [.append [1], .step .a .none, .append [2]])).1.gack = 0 :=
+  ⟨_, Tie.replica_plan_eq { fixed := true, mfail := true, wake := true } rfl _ _ _ _, by decide, by decide⟩
 
 /-- `plan_resync_handshake`'s hypotheses are satisfiable in the rarely taken region: a message consumed by
 the leader and never acknowledged (request lost) AND a follower that came back without its log — the
